@@ -54,12 +54,12 @@ NOTES['C18'] = {'technique': 'Lean 4 proof over a transcription of sketch.go (mi
             'Tie: UNIT-sketch reproduces the real table digest and size after every call (saturation, resets, resizes, non-power-of-two capacities); spread/rehash are translated from the source.',
     'note': 'Trusted: Lean kernel; translator; the white-box differential (bounded by generated sequences; tables up to 8192 words). maphash itself is a parameter (the theorems hold for every hash function); the 1/128 random admission is modelled as an input.'}
 
-NOTES['C13'] = {'technique': 'Lean 4 proof (per-level window/visit/tick lemmas of the timer wheel, race clause, order-preserving time map) + exact white-box differential + per-sweep oracle',
+NOTES['C13'] = {'technique': 'Lean 4 proof (inductive placement invariant of the timer wheel over every reachable wheel: after DeleteExpired(T) nothing scheduled lies in a tick before T; per-level window/visit/tick lemmas, race clause, order-preserving time map) + exact white-box differential + per-sweep oracle',
     'engine': 'proof+unit-wheel+seq',
-    'text': 'Theorems for every tick size S, bucket count B, wheel time t, sweep time T and deadline: placement window, visit lemma (every tick in [tick t, tick T] has its bucket visited), unvisited buckets hold only future ticks, '
+    'text': 'Props.C13 over Proofs.WheelSweep (transcription of variable.go, exact in link order): for every wheel reachable by Add/Delete/DeleteExpired with a monotone clock (any deadlines, any clock jumps) every scheduled event sits at the level and bucket findBucket assigns to its effective time (level 0: current or later tick, higher levels: later ticks only), DeleteExpired(T) re-establishes this for T through all five levels and the cascade, hence no event whose deadline and Add lie more than one tick before T survives the sweep at T. Level lemmas for every tick size S, bucket count B, wheel time t, sweep time T and deadline: placement window, visit lemma (every tick in [tick t, tick T] has its bucket visited), unvisited buckets hold only future ticks, '
             'tick-behind implies deadline-behind (nothing expired early), an already due deadline is scheduled for the current tick which the next sweep visits first (race clause), int64 -> wheel time is order preserving. '
             'Tie: UNIT-wheel reproduces every bucket in link order after every call with constants reported by the code; oracle on every sweep; SEQ CleanUp oracle on the whole cache.',
-    'note': 'Trusted: Lean kernel; white-box differential bounded by generated sequences. PARTIAL: the lift of the level lemmas through the nested bucket loops of DeleteExpired (every due node is in the expired list, for all wheels) is not mechanised - it is checked by the oracle on every sweep of every run. '
+    'note': 'Trusted: Lean kernel; white-box differential bounded by generated sequences. The wheel theorem is about the model; the step from the wheel to the whole cache (CleanUp drains the buffers, then sweeps) is checked by the SEQ CleanUp oracle. '
             'The interleaving of a write with maintenance is covered at wheel level (deadlines behind the wheel time) not with real goroutines; lossy read-buffer drops (reads that shorten deadlines) are excluded as the property states.'}
 
 NOTES['C14'] = {'technique': 'Lean 4 proof (inductive invariant of the drain-status protocol as a counter machine over unboundedly many threads) + regenerated skeleton equality + concurrent quiescence oracle',
